@@ -29,3 +29,9 @@ Theorem C02_masked_off_contributes_nothing : forall g c a l v,
   ref (GMask g) c (VB false :: a) = Ok (l, v) -> l = [].
 Proof. exact ref_mask_false. Qed.
 Print Assumptions C02_masked_off_contributes_nothing.
+
+(* ---- non-vacuity: concrete non-trivial programs and traces meeting the hypotheses above (proofs/GFIWitness.v) ---- *)
+From Proofs Require Import GFIWitness.
+Example C02_hypotheses_met : wfg ex_g /\ simulate ex_g ex_k ex_a = Ok ex_t /\ sites_live ex_t /\ length (t_choices ex_t) = 7%nat.
+Proof. exact (conj ex_wfg (conj ex_simulate (conj ex_sites_live ex_nontrivial))). Qed.
+Print Assumptions C02_hypotheses_met.
